@@ -5,6 +5,8 @@ run with real threads; each run is replayed against the model and checked by dir
 import collections
 import re
 
+import execlog
+
 import oracles
 import runlib
 import runprops
@@ -122,6 +124,19 @@ def correspondence(ctx):
     findings, broken = [], []
     stats = collections.Counter()
     points = []
+    # the executor's synchronisation log replayed through the extracted ExecRun.xstep: every accepted log is a
+    # path of the transition system of ExecModel.v (ExecRunProofs.accepted_log_is_model_path)
+    sched_runs = {"x%d" % i: (r["rr"], r["ce"]) for i, r in enumerate(runs) if r["sc"].variant["sched_seed"] and r["rr"].result == "ok" and not r["rr"].deadlock}
+    exec_verdicts = execlog.validate(ctx["driver"], sched_runs)
+    for i, r in enumerate(runs):
+        v = exec_verdicts.get("x%d" % i)
+        if v is None:
+            continue
+        stats["executor logs replayed"] += 1
+        if v.startswith("ok"):
+            stats["executor logs accepted as paths of ExecModel.step"] += 1
+        elif len(broken) < 10:
+            broken.append({"what": "the executor's synchronisation log is not a path of the executor model: " + v[:500], "scenario": r["sc"].ident()})
     trees = collections.defaultdict(set)
     for r in runs:
         stats["threads %d" % r["w"].threads] += 1
@@ -157,7 +172,7 @@ def correspondence(ctx):
     stats["scheduling points per run (min/median/max)"] = "%d/%d/%d" % (min(points or [0]), sorted(points or [0])[len(points) // 2] if points else 0, max(points or [0]))
     res = runprops.result("C05", ctx, runs, findings, broken, dict(stats),
                           "generated worlds x seeded schedules of the deterministic scheduler (threads 0/1/2/3/5/8, also more threads than pieces) + real-thread runs with threads 0/1/2/3/8; per run: completion, no deadlock, every piece evaluated exactly once, mutual exclusion and no lock held at exit from the scheduling log, C01/C02/C15 oracles, identical tree across schedules; each run replayed against the model",
-                          "exec_conservation / exec_exactly_once / exec_deadlock_free / exec_terminates on the transition system; tied to the code by scheduler-driven runs")
+                          "exec_conservation / exec_exactly_once / exec_deadlock_free / exec_terminates on the transition system; tied to the code by replaying the synchronisation log of every scheduler-driven run through the extracted ExecRun.xstep (accepted_log_is_model_path)")
     res["distinct_nontrivial"] = len(set((r["sc"].index, r["sc"].variant["sched_seed"], r["sc"].variant["threads"]) for r in runs if r["rr"].sched and len(r["rr"].sched) > 30))
     return res
 
